@@ -83,6 +83,15 @@ def write_world(hdir: Path) -> dict[str, dict]:
             'scheduled_service': 'yes', 'icao_code': 'Z' + code, 'iata_code': code})
         world[code] = {'lat': lat, 'lon': lon, 'elev_m': elev * 0.3048, 'tag': tag,
                        'country': ctry, 'continent': cont}
+    # historical airports the library adds from its own supplemental file
+    with open(boot.REPO_PKG_DATA / 'airports' / 'airports-patch.csv', newline='',
+              encoding='utf-8') as f:
+        for r in csv.DictReader(f):
+            if r['iata_code']:
+                world[r['iata_code']] = {
+                    'lat': float(r['latitude_deg']), 'lon': float(r['longitude_deg']),
+                    'elev_m': float(r['elevation_ft']) * 0.3048 if r['elevation_ft'] else 0.0,
+                    'tag': 'patch', 'country': r['iso_country'], 'continent': r['continent']}
     with open(d / 'airports.csv', 'w', newline='', encoding='utf-8') as f:
         w = csv.DictWriter(f, fieldnames=HEADER, quoting=csv.QUOTE_ALL)
         w.writeheader()
